@@ -28,15 +28,30 @@ func genC01(r *sim.Rand, tier string) *sim.Case {
 		n = 10 + r.Intn(50)
 	}
 	maintPct := r.Pick(20, 40, 60)
+	// key pattern: 0 = uniform; 1 = a window of two keys that moves on at every
+	// rotation, with an occasional wide write - L0 tables with disjoint and
+	// partially overlapping key ranges (what compaction planning has to get right).
+	pattern := r.Pick(0, 0, 1)
+	phase := 0
+	pickKey := func() int64 {
+		if pattern == 0 || r.Intn(6) == 0 {
+			return int64(r.Intn(nkeys))
+		}
+		return int64((phase + r.Intn(2)) % nkeys)
+	}
 	for i := 0; i < n; i++ {
 		if r.Intn(100) < maintPct {
-			c.Ops = append(c.Ops, GenMaint(r))
+			m := GenMaint(r)
+			if m.K == "rotate" {
+				phase += 2
+			}
+			c.Ops = append(c.Ops, m)
 			continue
 		}
 		if r.Intn(5) == 0 {
-			c.Ops = append(c.Ops, sim.Op{K: "del", A: int64(r.Intn(ncf)), B: int64(r.Intn(nkeys))})
+			c.Ops = append(c.Ops, sim.Op{K: "del", A: int64(r.Intn(ncf)), B: pickKey()})
 		} else {
-			c.Ops = append(c.Ops, sim.Op{K: "set", A: int64(r.Intn(ncf)), B: int64(r.Intn(nkeys)), C: int64(r.Intn(6))})
+			c.Ops = append(c.Ops, sim.Op{K: "set", A: int64(r.Intn(ncf)), B: pickKey(), C: int64(r.Intn(6))})
 		}
 	}
 	return c
